@@ -2,7 +2,7 @@
 import ast, z3
 from .values import *
 from .state import *
-from .engine import Res, FnCtx, as_int, as_num, is_num, const_int
+from .engine import Res, FnCtx, as_int, as_num, is_num, const_int, simp
 
 
 class AccessMixin:
@@ -86,6 +86,7 @@ class AccessMixin:
 
     def field_read(self, p, v, attr, fc, node):
         u = load_value(p, attr, v.t)
+        u = VUnion(simp(u.t), u.desc)
         if fc.spec:
             return [Res(p, u)]
         rs = []
@@ -132,14 +133,15 @@ class AccessMixin:
     def norm_bound(self, p, x, L, fc):
         """python slice bound normalisation: negative -> +len, clamp to [0, len]"""
         c = const_int(x)
-        if c is not None and c >= 0 or (not fc.spec and entails(p, x >= 0)) or (fc.spec and c is None and False):
-            if c == 0:
-                return z3.IntVal(0)
-            if not fc.spec and entails(p, x <= L):
+        can_ask = not getattr(fc, 'in_quant', False)
+        if c == 0:
+            return z3.IntVal(0)
+        if (c is not None and c >= 0) or (can_ask and entails(p, x >= 0)):
+            if can_ask and entails(p, x <= L):
                 return x
             return z3.If(x <= L, x, L)
         if fc.spec:
-            # spec expressions: bounds are written non-negative; clamp above only
+            # spec expressions: bounds are written non-negative; clamp
             return z3.If(x < 0, z3.IntVal(0), z3.If(x <= L, x, L))
         y = z3.If(x < 0, x + L, x)
         return z3.If(y < 0, 0, z3.If(y <= L, y, L))
@@ -166,7 +168,7 @@ class AccessMixin:
             n = hi_t
         else:
             n = z3.If(hi_t > lo_t, hi_t - lo_t, 0)
-            if not fc.spec and entails(p, hi_t >= lo_t):
+            if not getattr(fc, 'in_quant', False) and entails(p, hi_t >= lo_t):
                 n = hi_t - lo_t
         t = z3.Extract(b.t, lo_t, n)
         # decomposition facts (proved once in selftest: valid for 0 <= k <= len)
@@ -182,6 +184,13 @@ class AccessMixin:
     def elem_value(self, p, b, idx):
         """element idx of a sequence value (no bounds check)"""
         e = b.t[idx]
+        sch = p.ghost.get('schemas')
+        if sch:
+            f = sch.get(b.t.sexpr())
+            if f is not None:
+                # quantified facts about this sequence (comprehension results, dict key sequences) are
+                # instantiated at every read site: z3 does not E-match reliably on seq.nth patterns
+                p.assume(f(idx))
         if isinstance(b, VBytes):
             if b.code:
                 p.assume(z3.And(e >= 0, e <= 255))
@@ -429,6 +438,10 @@ class AccessMixin:
         return VTuple([VInt(PairIB.ib_i(v.t)), VBool(PairIB.ib_b(v.t))])
 
     def store_attr(self, p, o, attr, v):
+        if isinstance(v, VList) and self.specs is not None and 'EMPTY_LIST_KINDS' in self.specs.consts and self._is_empty(v.t):
+            ek = self.specs.consts['EMPTY_LIST_KINDS'][1].get((o.cls, attr))
+            if ek is not None and ek != v.ek:
+                v = VList(z3.Empty(z3.SeqSort(KSORT[ek])), ek)
         if isinstance(v, VConstList):
             raise Unsupported('storing a list of non-storable element shape into .%s' % attr)
         store_value(p, attr, o.t, v)
